@@ -1288,6 +1288,29 @@ def _check_reg(case, allow_blame=True):
         # symeig): normwise root-decomposition slack instead of the exact-structure bound (same policy as C01)
         sl = tol.root_slack(R.dtype_of(r), refmodel.shape(r)[-1])
         bounds = [((torch.full_like(bd, float(bd.max())) if torch.is_tensor(bd) and bd.numel() else bd) + 1e-6 * tol.U[R.dtype_of(r)]) * sl for bd in bounds]
+        # ... and when psd_safe_cholesky REPORTS jitter e while the operands are built (a singular factor), the matrix is
+        # (A + e I) o (B + e I) = A o B + e (diag A + diag B) + e^2: an ABSOLUTE term that the magnitude model of the product
+        # (|A| o |B|, zero for a zero factor) does not contain.  M = largest |entry| of any defining tensor / operand.
+        jrep = 0.0
+        try:
+            R.build(r)
+            jrep = R.LAST_BUILD_JITTER
+            if (case.get("other") or {}).get("k") == "op":
+                R.build(case["other"]["recipe"])
+                jrep = max(jrep, R.LAST_BUILD_JITTER)
+        except Exception:
+            jrep = 0.0
+        if jrep > 0.0:
+            lits = list(R.float_literals(r))
+            o = case.get("other") or {}
+            if o.get("k") == "op":
+                lits += list(R.float_literals(o["recipe"]))
+            elif "t" in o and L.is_lit(o["t"]) and o["t"]["dt"] in ("f64", "f32"):
+                lits.append(o["t"])
+            M = max([float(L.value(l, torch.float64).abs().max()) for l in lits if L.value(l).numel()] + [1.0])
+            slack = 16.0 * jrep * (1.0 + M) ** 2
+            bounds = [bd + slack for bd in bounds]
+            labels.append("approx:mul_reported_jitter")
         labels.append("approx:mul_node")
 
     def fresh():
